@@ -26,18 +26,36 @@ Definition as_access (t : tokstr) : sid :=
 Definition denotes (t : tokstr) : sid :=
   match t with Raw id => id | _ => as_access t end.
 
-Definition cred_id (c : cred) : string := fst (cred_pair c).
+(* Ground truth "who is calling": the client whose CREDENTIAL is presented for verification -
+   the Basic client id (never a client_id form field sent along with it), the issuer of a
+   verified client assertion, or the client_id a secret / nothing else is posted with. *)
+Definition cred_id (c : cred) : string :=
+  match c with
+  | Assertion (Some x) _ => x
+  | Assertion None _ => ""
+  | _ => fst (cred_pair c)
+  end.
 (* the storage accepts the presented id / secret pair (needed to justify a positive answer) *)
 Definition authenticated (cl : list client) (c : cred) : bool :=
-  match c with NoCred => false | Basic i s => sec_ok cl i s | Post i s => sec_ok cl i s end.
-(* credentials every endpoint has to accept: a confidential client proves its non-empty
-   secret, a public client (auth method none) names itself without a secret *)
+  match c with
+  | NoCred => false
+  | Basic i s | Post i s | Both i s _ => sec_ok cl i s
+  | Assertion who _ => match who with Some _ => true | None => false end
+  end.
+(* credentials every endpoint has to accept: a client registered for basic / post proves its
+   non-empty secret, a public client (auth method none) names itself, a private_key_jwt client
+   presents a verified assertion *)
 Definition proper (cl : list client) (c : cred) : bool :=
-  let (i, s) := cred_pair c in
-  match c, find_client cl i with
-  | NoCred, _ | _, None => false
-  | _, Some k => nonempty i && String.eqb (c_secret k) s
-                 && (nonempty s || match c_auth k with AMNone => true | _ => false end)
+  match c with
+  | NoCred | Assertion None _ => false
+  | Assertion (Some x) _ =>       (* a verified assertion of a client registered for private_key_jwt *)
+      match find_client cl x with Some k => match c_auth k with AMPkjwt => true | _ => false end | None => false end
+  | Basic i s | Post i s | Both i s _ =>
+      match find_client cl i with
+      | None => false
+      | Some k => nonempty i && String.eqb (c_secret k) s
+                  && match c_auth k with AMNone => true | AMPkjwt => false | _ => nonempty s end
+      end
   end.
 
 (* Presented strings outside the theorems' domain (known finding Fxx-C08-1): a provider-signed
